@@ -108,8 +108,28 @@ def vc_symbolic_operands(H):
     A.vc_new(H, only='symbolic', order=True)
 
 
+def _cache_is_plain_dict(H, where):
+    """The contracts model `self.operator_dict` as a plain dict (what is stored stays stored).  If the dataclass field is built by
+    anything else (a bounded / evicting mapping, a weak dictionary) that model says nothing about the code: undecided."""
+    from kvc import extract as X
+    try:
+        _, fields = X.class_fields(REL, 'OperatorDict')
+    except Exception:
+        return True
+    kw = dict(fields).get('operator_dict')
+    if kw is None:
+        return True
+    fac = kw.get('default_factory', kw.get('default'))
+    if fac in ('dict', 'OrderedDict', None) and kw.get('__call__', 'field') in ('field', 'dataclasses.field'):
+        return True
+    H.out_of_subset.append((where, f'OperatorDict.operator_dict is built by {fac!r}, not a plain dict: the cache model of the contracts does not apply'))
+    return False
+
+
 def vc_getitem(H, cls='OperatorDict'):
     fuc = H.fn(REL, f'{cls}.__getitem__')
+    if not _cache_is_plain_dict(H, f'{cls}.__getitem__'):
+        return
     gen_name = 'do_compile' if cls == 'Registry' else 'do_codegen'
     for wrapper_case in ('none', 'set'):
         def body(ctx, wrapper_case=wrapper_case):
